@@ -3,12 +3,12 @@ module verif/harness
 go 1.25.0
 
 require (
+	github.com/aws/aws-sdk-go v1.55.8
 	github.com/jrhy/s3db v0.0.0
 	google.golang.org/protobuf v1.36.12
 )
 
 require (
-	github.com/aws/aws-sdk-go v1.55.8 // indirect
 	github.com/hashicorp/golang-lru v1.0.2 // indirect
 	github.com/jmespath/go-jmespath v0.4.0 // indirect
 	github.com/johannesboyne/gofakes3 v1.2.0 // indirect
